@@ -547,7 +547,7 @@ def c09n(tree, ob):
                         ob.site(SESS, c, '{}.close chains up to {}.close'.format(cname, recv))
                     else:
                         ob.violate(SESS, '{}.{}'.format(cname, m.name), src(c), 'the connection is closed through {}.close directly: the close() of the session and bus layers is skipped, so transfers '
-                                   'that were cut off are not reported, timers stay armed and the contact object stays registered'.format(recv), c)
+                                   'that were cut off are not reported, timers stay armed and the contact object stays registered'.format(recv), c, sure=True)
                 elif recv == 'self':
                     n += 1
                     ob.site(SESS, c, '{}.{}: self.close()'.format(cname, m.name))
